@@ -17,11 +17,14 @@ EXPLANATION = (
     "k1+...+km = n, consecutive optimize(max_iter=k_j, tol=0) calls reproduce the pose terms and chi^2 reports of one call."
 )
 BOUNDS = {"quick": "max_iter 1..4, all chi^2 sequences, tol symbolic; all compositions of n<=4", "thorough": "max_iter 1..7; all compositions of n<=6"}
+BOUNDS = {k: v + "; singular-solve variants; chi^2 of any sign (max_iter 2..3); a vertex pose replaced between two calls" for k, v in BOUNDS.items()}
 OUTSIDE = "durations (the clock stub is only monotone); max_iter beyond the bound (each loop iteration is the same code; the bound limits the bookkeeping paths)"
 ASSUMPTIONS = ["chi^2 >= 0 (positive semi-definite information)", "spsolve stub: an arbitrary but deterministic function of its arguments (same matrix and right-hand side terms => same result, different terms => an unrelated vector)", "time stub: strictly increasing instants"]
 
 
-def make_epoch_edge(P, g, tag):
+def make_epoch_edge(P, g, tag, lo=0.0):
+    """lo=None: chi^2 of ANY sign (an edge with an indefinite information matrix, a custom chi^2): the bookkeeping must not
+    depend on the sign"""
     np = P.np
 
     class EpochEdge(g.BaseEdge):
@@ -47,7 +50,7 @@ def make_epoch_edge(P, g, tag):
         def calc_chi2(self):
             ep = self._state()
             if ep not in self.chi:
-                self.chi[ep] = P.real("%sc%d_%d" % (tag, self.k, ep), lo=0.0)
+                self.chi[ep] = P.real("%sc%d_%d" % (tag, self.k, ep), lo=lo)
             return self.chi[ep]
 
         def calc_error(self):
@@ -68,8 +71,8 @@ def make_epoch_edge(P, g, tag):
     return EpochEdge
 
 
-def _build(P, g, tag="", isolated=False):
-    EpochEdge = make_epoch_edge(P, g, "")
+def _build(P, g, tag="", isolated=False, anysign=False):
+    EpochEdge = make_epoch_edge(P, g, "", lo=None if anysign else 0.0)
     verts = [g.Vertex(i, g.PoseR2([0.5 * i, 1.0 - i])) for i in range(5 if isolated else 4)]  # vertex 4: free, no edges
     verts[3].fixed = True
     # the third edge joins two fixed vertices: its chi^2 still belongs to the graph's chi^2
@@ -85,7 +88,7 @@ def _total(edges, ep):
     return t
 
 
-def _report(max_iter, isolated=False):
+def _report(max_iter, isolated=False, anysign=False):
     """isolated=True: a free vertex without edges makes the linear system singular (the real solver returns NaN, the
     stub an unconstrained vector): the bookkeeping must still follow the documented rule"""
 
@@ -101,7 +104,7 @@ def _report(max_iter, isolated=False):
         solver = functional_solver(P, contract=True) if P.symbolic else None
         for verbose in (False, True):
             env = install_stubs(P, g, solver=solver)
-            graph, verts, edges = _build(P, g, isolated=isolated)
+            graph, verts, edges = _build(P, g, isolated=isolated, anysign=anysign)
             import warnings
 
             with warnings.catch_warnings():
@@ -113,6 +116,11 @@ def _report(max_iter, isolated=False):
         res, edges, verts, after, n_updates, env = results[0]
         n_states = edges[0].epoch + 1
         c = [_total(edges, k) for k in range(n_states)]
+        if anysign:
+            # the relative decrease divides by chi^2 + eps: a total of exactly -eps is excluded (division by zero, in the
+            # real code as well)
+            for ck in c:
+                P.assume(P.either(ck + eps > 0.0, ck + eps < 0.0))
         # reference stopping rule (decided along this path: in symbolic mode these comparisons are implied or fork)
         stop = None
         for i in range(1, max_iter + 1):
@@ -251,6 +259,8 @@ def cases(tier):
     out = [Case("report-maxiter%d" % m, _report(m), timeout=20, old_timeout=30, validate=3 if tier == "quick" else 8, feas_timeout_ms=3000) for m in range(1, mi + 1)]
     for m in (1, 2, 3) if tier == "quick" else (1, 2, 3, 4):
         out.append(Case("report-singular-maxiter%d" % m, _report(m, isolated=True), timeout=20, old_timeout=30, validate=2, feas_timeout_ms=3000))
+    for m in (2, 3):
+        out.append(Case("report-anysign-maxiter%d" % m, _report(m, anysign=True), timeout=20, old_timeout=30, validate=2, feas_timeout_ms=3000))
     out.append(Case("edited-between-calls", _edited_between_calls, timeout=20, old_timeout=30, validate=3, feas_timeout_ms=3000))
     for n in range(1, ns + 1):
         for parts in _compositions(n):
